@@ -80,7 +80,11 @@ partial def loop (h : IO.FS.Stream) (out : IO.FS.Stream) (cur : Option Machine) 
   let line ← h.getLine
   if line.isEmpty then return ()
   let (cur', o) := step cur line
-  out.putStrLn o
+  -- bound the line length (same rule as the harness); observations are ASCII so bytes = characters
+  if o.utf8ByteSize > 20000 then
+    out.putStrLn ((o.take 20000).toString ++ " ...TRUNCATED len=" ++ toString o.utf8ByteSize)
+  else
+    out.putStrLn o
   loop h out cur'
 
 def main : IO Unit := do
